@@ -31,8 +31,11 @@ KINDS: list[tuple[str, str, dict[str, Any]]] = [
     ("binary_sensor(reset_after=5,ignore_internal_state)", "bs", {"reset_after": 5, "ignore_internal_state": True}),
     ("switch(reset_after=5)", "sw", {"reset_after": 5}),
     ("switch(reset_after=5,invert)", "sw", {"reset_after": 5, "invert": True}),
+    # a switch with a separate state address: an 'on' reported there is an 'on' telegram like any other
+    ("switch(reset_after=5,state address)", "sw", {"reset_after": 5, "group_address_state": "1/1/2"}),
+    ("binary_sensor(reset_after=5,invert,ignore_internal_state)", "bs", {"reset_after": 5, "invert": True, "ignore_internal_state": True}),
 ]
-EVENTS = ["on", "off", "none", "on-response", "user-on", "link-down", "link-up"]
+EVENTS = ["on", "off", "none", "on-response", "user-on", "link-down", "link-up", "on-state", "off-state"]
 
 
 class LoopClock:
@@ -47,7 +50,7 @@ def events_for(kind: int) -> list[int]:
     cls = KINDS[kind][1]
     # (connection loss / return is reported to the task registry; timers of these devices do not depend on it)
     if cls == "sw":
-        return [0, 1, 2, 4, 5, 6]
+        return [0, 1, 2, 4, 5, 6] + ([7, 8] if "group_address_state" in KINDS[kind][2] else [])
     return [0, 1, 2, 3, 5, 6] if "context_timeout" not in KINDS[kind][2] else [0, 1, 2, 5, 6]
 
 
@@ -151,7 +154,7 @@ def run_case(kind: int, seq: tuple[tuple[int, int], ...]) -> list[tuple[str, str
                     s = ev.startswith("on")
                     raw = (not s) if invert else s
                     payload: Any = GroupValueResponse(DPTBinary(int(raw))) if ev.endswith("response") else GroupValueWrite(DPTBinary(int(raw)))
-                    tg = Telegram(GroupAddress("1/1/1"), payload=payload, source_address=IndividualAddress("1.1.7"), direction=TelegramDirection.INCOMING)
+                    tg = Telegram(GroupAddress("1/1/2" if ev.endswith("-state") else "1/1/1"), payload=payload, source_address=IndividualAddress("1.1.7"), direction=TelegramDirection.INCOMING)
                     w.xknx.telegrams.put_nowait(tg)
                     w.loop.settle()
                 # reference: the telegram is processed at `now`; a reset due exactly now has fired before it or is restarted by it - same result
